@@ -326,6 +326,11 @@ def check(ctx) -> None:
     # S11: the carbon count behind the carbon label counts by element, aromatic and aliphatic spelling alike (shared
     # with C07-E13)
     c07.rule_e13(ctx, "C14-S11")
+    # S12: what is added is decided by the solver from the composition vector alone: no second source of completions
+    # (a lookup keyed by text built in the order the elements happen to appear; shared with C08-D8)
+    from . import c08
+
+    c08.rule_d8(ctx, "C14-S12")
 
 
 def rule_s8(ctx) -> None:
